@@ -58,6 +58,26 @@ inductive AttrT
   | none | int | float | string | ints | floats | strings | other
   deriving DecidableEq, Repr, BEq
 
+/-- Python types `get_attr_type` knows (`_PY_TYPE_TO_ATTR_TYPE` / `_LIST_TYPE_TO_ATTR_TYPE`,
+`/repo/onnxscript/ir/_schemas.py:19-42`). -/
+inductive PyT
+  | int | float | str | bool | tensor | graph
+  deriving DecidableEq, Repr
+
+/-- Syntactic category of a parameter's annotation as `typing.get_type_hints` reports it. -/
+inductive Annot
+  /-- no annotation -/
+  | missing
+  /-- exactly one of the python types of the table -/
+  | base (t : PyT)
+  /-- `Sequence[t]` / `List[t]` / `list[t]` / `Tuple[t, …]` / `tuple[t, …]` with `t` in the table -/
+  | seqOf (t : PyT)
+  /-- anything else with a `typing` origin (`Optional[…]`, `Union[…]`, `Sequence[TensorType]`, …) -/
+  | otherOrigin
+  /-- anything else without origin (tensor type classes, `TypeVar`s, …) -/
+  | otherPlain
+  deriving DecidableEq, Repr
+
 structure OParam where
   name : String
   isInput : Bool
@@ -66,6 +86,10 @@ structure OParam where
   variadic : Bool
   /-- python parameter kind is POSITIONAL_OR_KEYWORD -/
   pok : Bool
+  /-- the annotation's category and whether the python parameter has a default, read independently of
+  `op_signature_from_function` (by `typing.get_type_hints` / `inspect.signature` in the translator) -/
+  annot : Annot
+  pyDefault : Bool
   deriving Repr
 
 abbrev OsSig := List OParam
@@ -98,6 +122,34 @@ structure Entry where
   sig : OsSig
   deriving Repr
 
+/-! ## `op_signature_from_function`: annotation → input or attribute -/
+
+/-- `get_attr_type` (`_schemas.py:81-104`) followed by the branch of `op_signature_from_function`
+(l.206-285): a parameter without annotation, or whose annotation `get_attr_type` maps to `UNDEFINED`, is an
+input; otherwise an attribute of the mapped type (`bool` ↦ INT, `Sequence[bool]` ↦ INTS; TENSOR(S) /
+GRAPH(S) are `other` here).  Returns (isInput, attribute type). -/
+def classify : Annot → Bool × AttrT
+  | .missing => (true, .none)
+  | .base .int => (false, .int)
+  | .base .float => (false, .float)
+  | .base .str => (false, .string)
+  | .base .bool => (false, .int)
+  | .base .tensor => (false, .other)
+  | .base .graph => (false, .other)
+  | .seqOf .int => (false, .ints)
+  | .seqOf .float => (false, .floats)
+  | .seqOf .str => (false, .strings)
+  | .seqOf .bool => (false, .ints)
+  | .seqOf .tensor => (false, .other)
+  | .seqOf .graph => (false, .other)
+  | .otherOrigin => (true, .none)
+  | .otherPlain => (true, .none)
+
+/-- The recorded signature is what the transcription yields: classification by `classify`, `required` =
+"no python default" (`required=param.default is inspect.Parameter.empty`), never variadic. -/
+def sigFaithful (s : OsSig) : Bool :=
+  s.all (fun p => decide (classify p.annot = (p.isInput, p.attr)) && (p.required == !p.pyDefault) && !p.variadic)
+
 /-! ## Calls and bindings -/
 
 /-- A call as the exporter sees it: the first `npos` positional schema arguments by position and the
@@ -105,7 +157,7 @@ keyword-only arguments named in `kws` by name. -/
 structure Call where
   npos : Nat
   kws : List String
-  deriving Repr
+  deriving Repr, DecidableEq
 
 /-- The call supplies at most the schema's positional arguments and at least those without default,
 only keyword-only names of the schema and at least those without default. -/
@@ -114,6 +166,18 @@ structure Conforms (a : AtenSchema) (c : Call) : Prop where
   required_pos : ∀ i arg, a.positional[i]? = some arg → arg.hasDefault = false → i < c.npos
   kws_known : ∀ n, n ∈ c.kws → ∃ arg, arg ∈ a.kwonly ∧ arg.name = n
   required_kw : ∀ arg, arg ∈ a.kwonly → arg.hasDefault = false → arg.name ∈ c.kws
+
+/-- Number of leading positional arguments every call must supply: up to the last one without default. -/
+def nreqPos : List AArg → Nat
+  | [] => 0
+  | x :: xs => if !x.hasDefault || decide (0 < nreqPos xs) then nreqPos xs + 1 else 0
+
+/-- The call that supplies everything the schema has. -/
+def maxCall (a : AtenSchema) : Call := ⟨a.positional.length, a.kwonly.map (·.name)⟩
+
+/-- The call that supplies only what has no default. -/
+def minCall (a : AtenSchema) : Call :=
+  ⟨nreqPos a.positional, (a.kwonly.filter (fun x => !x.hasDefault)).map (·.name)⟩
 
 /-- Which argument of the call a parameter received. -/
 inductive Src
@@ -231,9 +295,11 @@ def clauseOk (m : Mode) (a : AtenSchema) (s : OsSig) : Clause → Bool
   /- the parameter at its position accepts it -/
   | .posAccepts =>
     a.positional.zipIdx.all (fun ai => match s[ai.2]? with | some p => accepts m p ai.1 | none => true)
-  /- binding by position agrees with binding by name wherever the names coincide -/
+  /- binding by position agrees with binding by name wherever the names coincide (for the positional
+     arguments that have a parameter at their position) -/
   | .posNames =>
-    a.positional.zipIdx.all (fun ai => s.zipIdx.all (fun qj => qj.1.name != ai.1.name || qj.2 == ai.2))
+    a.positional.zipIdx.all (fun ai =>
+      decide (s.length ≤ ai.2) || s.zipIdx.all (fun qj => qj.1.name != ai.1.name || qj.2 == ai.2))
   /- every keyword-only schema argument is a parameter name, or is ignored by the scripted path and is
      droppable -/
   | .kwBound =>
@@ -253,6 +319,31 @@ def bindsOk (m : Mode) (a : AtenSchema) (s : OsSig) : Bool :=
 
 def failing (m : Mode) (a : AtenSchema) (s : OsSig) : List Clause :=
   Clause.all.filter (fun c => !clauseOk m a s c)
+
+
+/-- Pairwise distinct strings (parameter names of a Python function always are). -/
+def nodupS : List String → Bool
+  | [] => true
+  | x :: xs => !xs.contains x && nodupS xs
+
+/-! ## Positional schema arguments passed by keyword
+
+Python decompositions call operators with keywords for positional schema arguments
+(`prims.convert_element_type(x, dtype=…)`), and the exporter hands `node.kwargs` on unchanged, so such an
+argument is bound *by name*.  The extra conditions under which that is right: -/
+
+/-- every positional schema argument that has a parameter at its position has that parameter's name -/
+def posNamed (a : AtenSchema) (s : OsSig) : Bool :=
+  a.positional.zipIdx.all (fun ai => match s[ai.2]? with | some p => p.name == ai.1.name | none => true)
+
+/-- a required parameter under a positional schema argument sits under one without default -/
+def requiredOwn (a : AtenSchema) (s : OsSig) : Bool :=
+  s.zipIdx.all (fun pj => !pj.1.required ||
+    (match a.positional[pj.2]? with | some arg => !arg.hasDefault | none => true))
+
+def bindsOkK (m : Mode) (a : AtenSchema) (s : OsSig) : Bool :=
+  bindsOk m a s && posNamed a s && requiredOwn a s &&
+  nodupS (s.map (·.name)) && nodupS ((a.positional ++ a.kwonly).map (·.name))
 
 /-! ## Names -/
 
@@ -285,6 +376,41 @@ def nameOkCodes (cs : List Nat) : Bool := !(dotDefault.isSuffixOf cs) && matchNa
 def codes (s : String) : List Nat := s.toList.map Char.toNat
 
 def nameOk (s : String) : Bool := nameOkCodes (codes s)
+
+/-! ## Resolution of a name to a PyTorch operator, dispatch -/
+
+/-- What `_get_overload` looks up: `torch.ops.<ns>.<name>.<overload>` (`getattr(operator, name)` /
+`getattr(math, name)` for the `_operator` / `math` namespaces, which ignore the overload). -/
+structure OpKey where
+  ns : List Nat
+  name : List Nat
+  overload : List Nat
+  deriving DecidableEq, Repr
+
+/-- `default` -/
+def defaultCodes : List Nat := [100, 101, 102, 97, 117, 108, 116]
+
+/-- `_get_overload` (`torch/onnx/_internal/exporter/_registration.py:96-137`):
+`namespace, opname_overload = qualified_name.split("::")`,
+`op_name, *maybe_overload = opname_overload.split(".", 1)`, overload = the part after the first dot, or
+`default` when there is none. -/
+def resolveKey (cs : List Nat) : OpKey :=
+  let rest := (cs.dropWhile (· != 58)).drop 2
+  ⟨cs.takeWhile (· != 58), rest.takeWhile (· != 46),
+   match rest.dropWhile (· != 46) with
+   | [] => defaultCodes
+   | _ :: ov => ov⟩
+
+/-- One registered decomposition of a target, as the exporter's `ONNXRegistry` holds it. -/
+structure Decomp where
+  func : Nat
+  isComplex : Bool
+  deriving DecidableEq, Repr
+
+/-- `_dispatching.dispatch` (`_dispatching.py:31-58`): keep the decompositions of the node's kind
+(complex iff some argument is complex), take the first. -/
+def dispatch (ds : List Decomp) (nodeComplex : Bool) : Option Nat :=
+  ((ds.filter (fun d => d.isComplex == nodeComplex)).head?).map (·.func)
 
 /-! ## Registry -/
 
@@ -320,6 +446,36 @@ def register : Reg → Registration → Reg
 
 def runRegs (rs : List Registration) : Reg := rs.foldl register []
 
+/-- `registry[name].overloads` / `.complex` (empty when the name is unknown). -/
+def lookup (r : Reg) (name : String) (cx : Bool) : List Nat :=
+  match r.find? (fun o => o.name == name) with
+  | some o => if cx then o.complex else o.overloads
+  | none => []
+
+
+/-- One use of the `@torch_op(name | (name, …), private=…, complex=…)` decorator on function `func`. -/
+structure Decl where
+  func : Nat
+  names : List String
+  isPrivate : Bool
+  isComplex : Bool
+  deriving Repr
+
+/-- `torch_op(...)(func)` (`registration.py:105-153`): `_check_and_normalize_names` validates *all* names first
+(`ValueError` = `none`, nothing registered); a private function is compiled but not registered; otherwise
+every name is registered in order. -/
+def torchOp (r : Reg) (d : Decl) : Option Reg :=
+  if d.names.all nameOk then
+    some (if d.isPrivate then r else d.names.foldl (fun r n => register r ⟨d.func, n, d.isComplex⟩) r)
+  else none
+
+/-- A module body: decorators in source order; the first `ValueError` aborts the import. -/
+def runDecls : Reg → List Decl → Option Reg
+  | r, [] => some r
+  | r, d :: ds => match torchOp r d with
+    | some r' => runDecls r' ds
+    | none => none
+
 def internalPrefix : List Char := ['i', 'n', 't', 'e', 'r', 'n', 'a', 'l', ':', ':']
 
 /-- `get_torchlib_ops`: (qualified name, function, is_complex) for every non-`internal::` entry, real
@@ -351,16 +507,23 @@ def nodupN : List Nat → Bool
 inductive Defect
   | undefinedOp
   | badName
+  /-- `op_signature_from_function` classified a parameter differently from its transcription -/
+  | sigClass
   | clause (c : Clause)
   deriving DecidableEq, Repr
 
 def Entry.defects (e : Entry) : List Defect :=
   (if nameOkCodes e.qcodes then [] else [.badName]) ++
+  (if sigFaithful e.sig then [] else [.sigClass]) ++
   (match e.res with
    | .undefined => [.undefinedOp]
    | .lib_absent => []
    | _ => (failing e.mode e.aten e.sig).map .clause)
 
 def Entry.ok (e : Entry) : Bool := e.defects.isEmpty
+
+/-- The row has the shape the two binders are modelled for. -/
+def Entry.shapeOk (e : Entry) : Bool :=
+  clauseOk e.mode e.aten e.sig .paramsModelled && nodupS (e.sig.map (·.name))
 
 end OV.C16
